@@ -102,10 +102,10 @@ def check(run):
     rn = fx.fn1(S + '::run')
     run.touch(rn)
     for f in calls(rn, 'high_resolution_timer::fire'):
-        er = [c for c in rn.calls() if (c.get('callee') or '').endswith('::erase') and q.render(rn, c.get('obj')) == 'm_timer_queue']
+        er = [c for op, c in q.container_calls(rn, 'm_timer_queue') if op in ('erase', 'pop_front', 'pop_back')]
         run.check(q.any_precedes(rn, er, f), 'R4', 'dequeue-before-fire', S + '::run', rn.loc(f), 'run() fires a timer it has not removed from the queue', 'erase precedes fire')
         for e in er:
-            run.check(q.render(rn, e['args'][0]) in ('m_timer_queue.begin()',), 'R4', 'dequeue-front', S + '::run', rn.loc(e), 'run() erases %s, not the front' % q.render(rn, e['args'][0]), 'erases the front')
+            run.check(q.canon_op(rn, e) == 'pop_front', 'R4', 'dequeue-front', S + '::run', rn.loc(e), 'run() removes with %s, not the front' % q.canon_op(rn, e), 'removes the front')
         g = [('' if p else '!') + q.render(rn, a) for a, p in q.guards_at(rn, f)]
         run.check(any('expiry() <= now' in x for x in g), 'R4', 'fire-only-due', S + '::run', rn.loc(f), 'fire is not guarded by front->expiry() <= now: ' + str(g), 'fires only timers whose expiry <= now')
         a = q.render(rn, f['args'][0])
